@@ -91,7 +91,7 @@ def checkMT (toks : List String) : String :=
 def checkPT (toks : List String) : String :=
   let (a, b) := splitArrow toks
   match natsOf a, natsOf b with
-  | some [_, _, _, _], some [truesBad, keep0, _keep1, keepN, _early0, earlyN, _racy0, _racy1, racyN, badarg] =>
+  | some [_, _, _, _, _], some [truesBad, keep0, _keep1, keepN, _early0, earlyN, _racy0, _racy1, racyN, badarg] =>
     verdict (ptOk truesBad keep0 keepN earlyN racyN badarg) "callback-not-exactly-once"
   | _, _ => "bad-op"
 
